@@ -151,6 +151,22 @@ func runRev(toks []string) (string, string) {
 			verdict = fmt.Sprintf("FAIL:revisit-roundtrip:the serialized revisit does not pass strict validation: %v %s", erru, kinds(v))
 			return
 		}
+		if viaStream {
+			// another revisit with another protocol header is parsed before the first is looked at
+			other := append([]byte{}, wire...)
+			if i := bytes.Index(other, []byte("\r\n\r\n")); i > 0 {
+				for j := i + 4; j < len(other)-4; j++ {
+					if other[j] >= 'a' && other[j] <= 'y' {
+						other[j]++
+					}
+				}
+			}
+			if d, _, _, _ := gowarc.NewUnmarshaler(gowarc.WithSyntaxErrorPolicy(gowarc.ErrIgnore), gowarc.WithSpecViolationPolicy(gowarc.ErrIgnore), gowarc.WithUnknownRecordTypePolicy(gowarc.ErrIgnore),
+				gowarc.WithBlockErrorPolicy(gowarc.ErrIgnore), gowarc.WithBufferTmpDir(dir)).Unmarshal(bufio.NewReader(bytes.NewReader(other))); d != nil {
+				readBlock(d)
+				defer d.Close()
+			}
+		}
 		bb, _ := readBlock(back)
 		if bb != rb || back.WarcHeader().String() != h.String() {
 			verdict = "FAIL:revisit-roundtrip:the parsed revisit differs from the one serialized"
